@@ -23,6 +23,7 @@ DERIVE_OK = {'Debug', 'Clone', 'Copy', 'PartialEq', 'Eq', 'Hash', 'Default', 'Pa
 RULE_DOC = {
     'D1': 'drop comments and attributes/derives no contracted function depends on (#[inline], #[must_use], #[allow], #[repr(transparent)], #[cfg(...)] decided for the default feature set, serde/thiserror derives)',
     'D2': 'debug_assert!(c) -> assert(c): a proof obligation (stronger than dropping it)',
+    'D3': 'assert!(c, msg) -> assert(c): a proof obligation (the run-time panic must be unreachable under the contract precondition)',
     'R1': '`for &x in E {` -> `for x__r in E { let x = *x__r;` (definition of a reference pattern)',
     'R2': '`for P in &S {` -> `for P in S.iter() {` for std hash collections (std defines the former as the latter)',
     'R3': '`for (i, &x) in E.iter().enumerate() {` -> `for i in 0..E.len() { let x = E[i];` (std semantics of enumerate over a slice)',
@@ -87,14 +88,18 @@ class Piece:
         self.text = new
         return self
 
-    def D2(self):
+    def D3(self):
+        """assert!(cond, fmt, args..) -> assert(cond): the panic must be unreachable under the stated precondition."""
+        return self.D2(macro_re=r'(?<![\w!])assert!\(', rule='D3')
+
+    def D2(self, macro_re=r'\bdebug_assert!\(', rule='D2'):
         """debug_assert!(cond, fmt, args..) -> assert(cond);   (paren-matched, any line layout)"""
         text = self.text
         n = 0
         while True:
             code = scan(text)
             m = None
-            for mm in re.finditer(r'\bdebug_assert!\(', text):
+            for mm in re.finditer(macro_re, text):
                 if code[mm.start()]:
                     m = mm
                     break
@@ -120,10 +125,10 @@ class Piece:
                 end += 1
             text = text[:m.start()] + 'assert(%s);' % cond + text[end:]
             n += 1
-        if re.search(r'\bdebug_assert', text):
+        if rule == 'D2' and re.search(r'\bdebug_assert', text):
             raise LostAnchor('rule D2: unexpected debug_assert form in %s' % self.label)
         if n:
-            self._fired('D2', '%d site(s)' % n)
+            self._fired(rule, '%d site(s)' % n)
         self.text = text
         return self
 
@@ -279,6 +284,11 @@ class Piece:
         self.ops.append(('after', (anchor, nth), text))
         return self
 
+    def body_end(self, text):
+        """insert just before the closing brace of the fn body (unit-returning functions)."""
+        self.ops.append(('body_end', None, text))
+        return self
+
     def before_tail(self, text):
         """insert before the last line of the fn body (the tail expression line)."""
         self.ops.append(('before_tail', None, text))
@@ -389,12 +399,10 @@ class Piece:
         for op, arg, t in self.ops:
             if op == 'body_start':
                 add(bo + 1, '\n' + t + '\n')
+            elif op == 'body_end':
+                add(bc, t + '\n')
             elif op == 'before_tail':
-                # last non-empty line before the closing brace
-                j = bc - 1
-                while text[j] in ' \t\n':
-                    j -= 1
-                add(_line_start(text, j), t + '\n')
+                add(_line_start(text, tail_start(text, code, bo, bc)), t + '\n')
             else:
                 anchor, nth = arg
                 idxs = [mm.start() for mm in re.finditer(re.escape(anchor), text) if code[mm.start()]]
@@ -424,6 +432,36 @@ class Piece:
 
     def sha(self):
         return hashlib.sha256(self.text.encode()).hexdigest()[:16]
+
+
+def tail_start(text, code, bo, bc):
+    """Start of the tail expression (last top-level statement) of the block text[bo..bc]."""
+    depth = 0
+    last_end = bo + 1
+    i = bo + 1
+    while i < bc:
+        if code[i]:
+            ch = text[i]
+            if ch in '([{':
+                depth += 1
+            elif ch in ')]}':
+                depth -= 1
+                if ch == '}' and depth == 0:
+                    j = i + 1
+                    while j < bc and text[j] in ' \t\n':
+                        j += 1
+                    nxt = text[j:j + 4]
+                    if j < bc and not (nxt.startswith('else') or nxt[:1] in '.?)],;=+-*/&|<>'):
+                        last_end = i + 1
+            elif ch == ';' and depth == 0:
+                last_end = i + 1
+        i += 1
+    j = last_end
+    while j < bc and text[j] in ' \t\n':
+        j += 1
+    if j >= bc:
+        raise LostAnchor('no tail expression')
+    return j
 
 
 def _line_start(text, pos):
@@ -743,7 +781,7 @@ def analyse(unit, rendered, res, twin=False):
                 break
         name = None
         # prefer a marker inside any span of this diagnostic (the failing clause), else nearest above the primary
-        for s in spans:
+        for s in prim + [x for x in spans if not x.get('is_primary') and x['line_end'] - x['line_start'] <= 3]:
             for l in range(s['line_start'], s['line_end'] + 1):
                 mk = re.findall(r'/\*@([^*]+)\*/', lines[l - 1]) if l - 1 < len(lines) else []
                 if mk:
